@@ -219,11 +219,14 @@ def st_shared_history(draw):
     steps = []
     n_bare = draw(st.integers(1, 2))
     for _ in range(draw(st.integers(2, 6))):
-        kind = draw(st.sampled_from(["dec", "dec", "cls", "cls", "redec", "reuse"]))
+        kind = draw(st.sampled_from(["dec", "dec", "cls", "cls", "redec", "reuse", "adopt"]))
         if kind == "dec":
             steps.append(["dec", draw(st.integers(0, n_bare - 1)), draw(st.sampled_from(["require", "ensure"]))])
         elif kind == "redec":
             steps.append(["redec", draw(st.integers(0, 5)), draw(st.sampled_from(["require", "ensure"]))])
+        elif kind == "adopt":
+            # a wrapper made (and already called) earlier becomes the overriding method of a new sub-class
+            steps.append(["adopt", draw(st.integers(0, 5)), draw(st.integers(0, 2))])
         elif kind == "reuse":
             # the sub-class re-uses the root's method (m = Root.m); with a second root that defines m differently
             step = ["cls", draw(st.integers(0, 2)), -1, "both"]
@@ -271,6 +274,8 @@ def _check_shared_history(ctx, case):
     bares = [mk_bare(k) for k in range(case["n_bare"])]
     objs = {}   # name -> callable(x) probing the definition
     own = {}    # name -> set of cids that may be evaluated by that definition
+    expect = {}  # name -> what exactly is evaluated when every contract holds (None: not modelled)
+    gspec = {}  # wrapper name -> (helper index, role, cid, decorated function)
     roots = {}
     base = {}
     wrappers = []
@@ -297,6 +302,23 @@ def _check_shared_history(ctx, case):
             out[name] = res
         return out
 
+    def make_root(rr):
+        cp, cq = new_cid(), new_cid()
+
+        class Root(icontract.DBC):
+            @icontract.require(mk_cond(cp), error=_Viol(cp))
+            @icontract.ensure(mk_cond(cq, True), error=_Viol(cq))
+            def m(self, x):
+                LOG.append("root-body")
+                return -1
+        Root.__name__ = "Root%d" % rr
+        roots[rr] = (Root, {cp, cq}, (cp, cq))
+        objs["Root%d" % rr] = (lambda K: lambda x: K().m(x))(Root)
+        own["Root%d" % rr] = {cp, cq}
+        expect["Root%d" % rr] = [cp, "root-body", cq]
+        for nme, v in probe_all().items():
+            base.setdefault(nme, v)
+
     steps = case["shared_history"]
     feats = set()
     for si, st_ in enumerate(steps):
@@ -311,6 +333,8 @@ def _check_shared_history(ctx, case):
             wrappers.append(name)
             objs[name] = (lambda g: lambda x: g(None, x))(g)
             own[name] = {cid}
+            gspec[name] = (k, role, cid, g)
+            expect[name] = [cid, "body%d" % k] if role == "require" else ["body%d" % k, cid]
             if sum(1 for s in steps[:si + 1] if s[0] == "dec" and s[1] == k) >= 2:
                 feats.add("same-function-decorated-twice")
         elif st_[0] == "redec":
@@ -327,39 +351,52 @@ def _check_shared_history(ctx, case):
             objs[name] = (lambda g: lambda x: g(None, x))(g2)
             own[name] = own[name] | {cid}
             base.pop(name, None)
+            expect[name] = None
+            gspec.pop(name, None)
             feats.add("stacked-on-existing-wrapper")
+        elif st_[0] == "adopt":
+            cands = [n for n in wrappers if n in gspec]
+            if not cands:
+                continue
+            name = cands[st_[1] % len(cands)]
+            k, role, gcid, g = gspec[name]
+            r = st_[2]
+            if r not in roots:
+                make_root(r)
+            Root, rc, (cp, cq) = roots[r]
+            Sub = type(Root)("Sub%d" % si, (Root,), {"m": g})
+            sub = "Sub%d" % si
+            objs[sub] = (lambda K: lambda x: K().m(x))(Sub)
+            own[sub] = set(rc) | {gcid}
+            expect[sub] = [cp, "body%d" % k, cq] + ([gcid] if role == "ensure" else [])
+            # the function object itself now carries the inherited contracts as well (it IS Sub.m)
+            own[name] = own[name] | set(rc)
+            base.pop(name, None)
+            expect[name] = None
+            gspec.pop(name, None)
+            wrappers.remove(name)  # stacking more contracts on it later would (legitimately) change Sub.m as well
+            feats.add("called-wrapper-adopted-as-method")
         else:
             r, k = st_[1], st_[2]
             r2 = st_[4] if len(st_) > 4 and st_[4] != r else None
             for rr in [r] + ([r2] if r2 is not None else []):
                 if rr not in roots:
-                    cp, cq = new_cid(), new_cid()
-
-                    class Root(icontract.DBC):
-                        @icontract.require(mk_cond(cp), error=_Viol(cp))
-                        @icontract.ensure(mk_cond(cq, True), error=_Viol(cq))
-                        def m(self, x):
-                            LOG.append("root-body")
-                            return -1
-                    Root.__name__ = "Root%d" % rr
-                    roots[rr] = (Root, {cp, cq})
-                    objs["Root%d" % rr] = (lambda K: lambda x: K().m(x))(Root)
-                    own["Root%d" % rr] = {cp, cq}
-                    snap = probe_all()
-                    for nme, v in snap.items():
-                        base.setdefault(nme, v)
-            Root, rc = roots[r]
+                    make_root(rr)
+            Root, rc, (cp, cq) = roots[r]
             bases_ = (Root,) + ((roots[r2][0],) if r2 is not None else ())
+            exp = [cp, "body%d" % k if k >= 0 else "root-body", cq]
             if r2 is not None:
                 feats.add("two-roots")
                 if k >= 0:
                     rc = rc | roots[r2][1]  # an override inherits from both; a re-used Root.m stays Root's
+                    exp.append(roots[r2][2][1])
             ns = {"m": bares[k] if k >= 0 else Root.__dict__["m"]}
             if k < 0:
                 feats.add("base-method-re-used-as-is")
             Sub = type(Root)("Sub%d" % si, bases_, ns)
             objs["Sub%d" % si] = (lambda K: lambda x: K().m(x))(Sub)
             own["Sub%d" % si] = set(rc)
+            expect["Sub%d" % si] = exp
             if k >= 0 and sum(1 for s in steps[:si + 1] if s[0] == "cls" and s[2] == k) >= 2:
                 feats.add("helper-installed-in-two-classes")
             if k >= 0 and (any(s[0] == "dec" and s[1] == k for s in steps[:si]) or
@@ -369,6 +406,10 @@ def _check_shared_history(ctx, case):
         for name, v in snap.items():
             # absolute: a definition only ever evaluates its own contracts
             for falsy, o, log in v:
+                if falsy is None and expect.get(name) is not None and list(log) != expect[name]:
+                    ctx.fail("shared|evaluated-contracts", case, "%s: with every contract holding %s evaluates %r, its "
+                             "declaration and its bases imply %r\nhistory: %r" % (label, name, list(log), expect[name], steps))
+                    return feats
                 foreign = [c for c in log if isinstance(c, int) and c not in own[name]]
                 if foreign:
                     ctx.fail("shared|foreign-contract-evaluated", case, "%s: %s evaluates contract(s) %r that were never "
